@@ -508,5 +508,8 @@ class Bridge(IoMixin):
     def numpy_contiguous(self, h):
         return self._c(self.L.akb_numpy_contiguous(h.p))
 
+    def setitem_field_at(self, h, where, what):
+        return self._c(self.L.akb_setitem_field_at(h.p, where, what.p))
+
     def setitem_field(self, h, key, what):
         return self._c(self.L.akb_setitem_field(h.p, key.encode(), what.p))
